@@ -186,8 +186,30 @@ func (g *cgraph) defineLen(x ssa.Value, depth int) {
 		// values of different iterations leaks into the current one.
 		lo := infW
 		known := true
-		for _, e := range v.Edges {
+		knownNonNil := a.cur != nil && a.at[a.cur] != nil && a.at[a.cur]["v:"+v.Name()]
+		// the values that can arrive: through inner merges, v itself standing for "unchanged"
+		var leaves []ssa.Value
+		seenPhi := map[ssa.Value]bool{v: true}
+		var collect func(p *ssa.Phi)
+		collect = func(p *ssa.Phi) {
+			for _, e := range p.Edges {
+				if p2, ok := e.(*ssa.Phi); ok {
+					if !seenPhi[p2] {
+						seenPhi[p2] = true
+						collect(p2)
+					}
+					continue
+				}
+				leaves = append(leaves, e)
+			}
+		}
+		collect(v)
+		for _, e := range leaves {
 			if grownFrom(e, v, map[ssa.Value]bool{}) {
+				continue
+			}
+			// the nil operand is excluded where the merge is known to be non-nil (if x != nil { … x[k] … })
+			if c, isC := e.(*ssa.Const); isC && c.IsNil() && knownNonNil {
 				continue
 			}
 			sb := &cgraph{a: a, fn: g.fn, edges: map[string]map[string]int64{}, ne: map[string]bool{}, seen: map[string]bool{lt: true}, vals: map[string]ssa.Value{}, alias: map[string]string{}}
